@@ -117,7 +117,8 @@ def make_ops(rng, structs, names, nops, deep, many=True):
         kw = [[('no_' if neg else '') + col, long_list(rng, atoms, col, L, mode)]]
         r = rng.random()
         if r < 0.25:      # a short second condition
-            kw.append(rng.choice([['chainID', 'A'], ['no_name', ['CA', 'ZZ']], ['resName', ['ALA', 'GLY', 'LYS']], ['chainID', ['A', 'B']]]))
+            kw.append(rng.choice([['chainID', 'A'], ['no_name', ['CA', 'ZZ']], ['resName', ['ALA', 'GLY', 'LYS']], ['chainID', ['A', 'B']],
+                                  ['rowID', rng.randrange(len(atoms))], ['no_rowID', rng.randrange(len(atoms))]]))     # a position given as a scalar
         elif r < 0.40:    # totals around the 999 limit
             rest = rng.choice([48, 49, 50, 998 - min(L, 950), 999 - min(L, 950), 1000 - min(L, 950)])
             rest = max(0, min(rest, 900))
@@ -194,6 +195,7 @@ def explore(ctx, tier, rng, search=False):
         if len(structs) == 1 and rng.random() < 0.5: case['kind'] = 'many2sql'
         names = G.default_tablenames(case)
         case['ops'] = make_ops(rng, structs, names, nops, deep, many=(names != ['atom']))
+        if rng.random() < 0.4: case['rowid_carrier'] = rng.choice(['i64', 'i32', 'intp'])     # positions as NumPy integers (np.where / np.argmin)
         cases.append(case)
     # small tables: the same machinery where lists are long but tables short (cheap, many)
     for t in range(60 if deep else 16):
@@ -201,6 +203,7 @@ def explore(ctx, tier, rng, search=False):
         case = {'structs': structs}
         names = G.default_tablenames(case)
         case['ops'] = make_ops(rng, structs, names, 12, deep, many=(names != ['atom']))
+        if t % 2 == 1: case['rowid_carrier'] = ['i64', 'i32', 'intp'][(t // 2) % 3]
         cases.append(case)
     # the recorded finding classes, on purpose
     for t in range(2):
